@@ -130,6 +130,44 @@ func main() {
 				e.Strs("activeSuicideBranches", br, "Active.Suicide: what is removed, in source order")
 			}
 		}
+		if f, err := r.Load("fracmanager/loader.go"); err != nil {
+			e.Missing("loader.go", err)
+		} else if fd := f.Func("loader", "load"); fd == nil {
+			e.Missing("loadSortCalls", "loader.load not found")
+		} else {
+			// the order of fm.fracs after start-up: sealed fractions in the order of the sorted fraction ids, then the replayed
+			// ones in the same order - the only sort is sort.Strings(fracIDs), and the replay runs inside the loop over `actives`
+			var sorts []string
+			ast.Inspect(fd.Body, func(n ast.Node) bool {
+				if c, ok := n.(*ast.CallExpr); ok && (strings.HasPrefix(f.Render(c.Fun), "sort.") || strings.HasPrefix(f.Render(c.Fun), "slices.Sort")) {
+					sorts = append(sorts, f.Render(c))
+				}
+				return true
+			})
+			e.Strs("loadSortCalls", sorts, "loader.load: every sort it performs")
+			var loop []string
+			ast.Inspect(fd.Body, func(n ast.Node) bool {
+				rs, ok := n.(*ast.RangeStmt)
+				if !ok || f.Render(rs.X) != "actives" {
+					return true
+				}
+				inGo := false
+				ast.Inspect(rs.Body, func(m ast.Node) bool {
+					switch x := m.(type) {
+					case *ast.GoStmt, *ast.FuncLit:
+						_ = x
+						inGo = true
+					}
+					return true
+				})
+				loop = append(loop, sealfacts.KeepCalls(f, rs.Body, "a.Replay", "removeFractionFiles", "l.fracProvider.newActiveRef")...)
+				if inGo {
+					loop = append(loop, "<goroutine or closure in the loop>")
+				}
+				return false
+			})
+			e.Strs("replayLoopCalls", loop, "loader.load: what the loop over the unsealed fractions does, in order")
+		}
 		if f, err := r.Load("disk/doc_blocks_reader.go"); err != nil {
 			e.Missing("doc_blocks_reader.go", err)
 		} else if fd := f.Func("DocBlocksReader", "ReadDocBlock"); fd == nil {
